@@ -338,6 +338,33 @@ pub fn l1_program(c: &L1) -> Vec<I> {
 }
 
 /// Operand-value inputs (a for dst, b for src) of a layer-1 group.
+/// Dense small values and every power of two with its neighbours: operands for which a table, a
+/// strength reduction or a special-cased shift count could go wrong between the boundary values.
+pub fn dense_values() -> Vec<u64> {
+    let mut v: Vec<u64> = (0..=70).collect();
+    for k in 3..64u32 {
+        v.extend([(1u64 << k) - 1, 1u64 << k, (1u64 << k) + 1]);
+    }
+    v.extend([u64::MAX, u64::MAX - 1, 0xffff_ffff_0000_0000, 0x5555_5555_5555_5555, 0xaaaa_aaaa_aaaa_aaaa, 0x0f0f_0f0f_f0f0_f0f0]);
+    v.sort();
+    v.dedup();
+    v
+}
+
+pub fn dense_imms() -> Vec<i32> {
+    let mut v: Vec<i32> = (-70..=70).collect();
+    for k in 3..31u32 {
+        for d in [-1i32, 0, 1] {
+            v.push((1i32 << k) + d);
+            v.push(-(1i32 << k) + d);
+        }
+    }
+    v.extend([i32::MAX, i32::MIN, i32::MIN + 1, 0x5555_5555, 0x2aaa_aaaa, -0x5555_5556]);
+    v.sort();
+    v.dedup();
+    v
+}
+
 pub fn l1_inputs(c: &L1) -> Vec<(u64, u64)> {
     let k = isa::kind(c.i.opc).unwrap();
     let two = match k {
@@ -375,7 +402,17 @@ pub fn l1_inputs(c: &L1) -> Vec<(u64, u64)> {
             v
         }
         _ => {
-            if two {
+            if two && c.x == 1 {
+                // dense second operand against eight first operands
+                let firsts = [1u64, 0xff, 0x8000_0000, 0xffff_ffff, 0x1_0000_0001, 0x8000_0000_0000_0000, u64::MAX, 0x0123_4567_89ab_cdef];
+                let mut v = vec![];
+                for b in dense_values() {
+                    for a in firsts {
+                        v.push((a, b));
+                    }
+                }
+                v
+            } else if two {
                 let mut v = Vec::with_capacity(961);
                 for a in V64 {
                     for b in V64 {
@@ -567,6 +604,14 @@ pub fn l1_enumerate(thorough: bool) -> Vec<L1> {
                         }
                     }
                 }
+                // dense operands for one register assignment
+                if reg {
+                    v.push(mk(L1Kind::Alu, I::new(opc, 2, 3, 0, 0), 0, pick_base(2, 3, 0), 1));
+                } else {
+                    for imm in dense_imms() {
+                        v.push(mk(L1Kind::Alu, I::new(opc, 4, 0, 0, imm), 0, pick_base(4, 4, 0), 0));
+                    }
+                }
             }
             Kind::Neg { .. } => {
                 for d in 0..=9u8 {
@@ -604,6 +649,13 @@ pub fn l1_enumerate(thorough: bool) -> Vec<L1> {
                         for imm in I32S {
                             v.push(mk(L1Kind::Jmp, I::new(opc, d, 0, 0, imm), 0, pick_base(d, d, 0), 0));
                         }
+                    }
+                }
+                if reg {
+                    v.push(mk(L1Kind::Jmp, I::new(opc, 2, 3, 0, 0), 0, pick_base(2, 3, 0), 1));
+                } else {
+                    for imm in dense_imms() {
+                        v.push(mk(L1Kind::Jmp, I::new(opc, 4, 0, 0, imm), 0, pick_base(4, 4, 0), 0));
                     }
                 }
             }
